@@ -322,8 +322,25 @@ def run(ctx: Ctx) -> int:
     if ok:
         gch = guard_chain(rz_s[0])
         txt = " ".join(ast.unparse(t) for t, pol in gch if pol)
-        ok = "_required" in txt and "_name_parser_map" in txt and "fail_no_subcommand" in txt
-    ctx.oblige("C06.d", ok, rz_s[0] if rz_s else gs, "a required subcommand that is neither given nor derivable raises NSKeyError naming the key" if ok else "a missing required subcommand is no longer an error", fn=gs, construct="required subcommand raises")
+        pos = []
+        for t, pol in gch:
+            if pol:
+                pos += t.values if isinstance(t, ast.BoolOp) and isinstance(t.op, ast.And) else [t]
+        ok = "_name_parser_map" in txt and "fail_no_subcommand" in txt
+        # the only way past the raise without a known subcommand: the early `return None, None` for "nothing given, nothing required"
+        extra_g = [ast.unparse(t) for t in pos if not ("_name_parser_map" in ast.unparse(t) or ast.unparse(t) == "fail_no_subcommand")]
+        ok = ok and not extra_g
+        early = [r for r in walk_local(gs) if isinstance(r, ast.Return) and any("fail_no_subcommand" == ast.unparse(t) and pol for t, pol in guard_chain(r)) and r.lineno < rz_s[0].lineno]
+        ok_early = all(any("is None" in ast.unparse(t) and pol for t, pol in guard_chain(r)) for r in early)
+        ok = ok and ok_early
+    ctx.oblige(
+        "C06.d",
+        ok,
+        rz_s[0] if rz_s else gs,
+        "a subcommand that is required but missing, or given but not among the choices, raises NSKeyError naming the key" if ok else "a subcommand name that is not among the choices (or a missing required one) is not always an error: get_subcommands hands back a None parser for it (AttributeError later) or accepts the unknown name silently",
+        fn=gs,
+        construct="required subcommand raises",
+    )
 
     # ---------------- C06.e ---------------------------------------------------
     act = ctx.func("_typehints:adapt_class_type")
